@@ -25,6 +25,7 @@ func init() {
 			"G6 edits created while a callable is renamed do not find their target through the live id of a compiled pipeline they point to (a later rename of that pipeline in the same request would make the replay miss it). " +
 			"G7 the rename walkers visit every binding of every binding list: no sub-slice of BindStms.List and no early exit from a loop over it that does work per element (the wildcard binding is an ordinary entry and may hold the reference). " +
 			"G8 renames consider a binding supplied through a wildcard (one known finding), G9 the unused-output search visits every called pipeline, G10 declaration objects of separately compiled files are never compared for identity. " +
+			"G11 every iteration over the given ASTs that adjusts the top-level call reads Ast.Call (except where the file does not declare the callable). " +
 			"NOT decided: that the edited program compiles, call-graph equality, round-trip of renames.",
 		Assumptions: commonAssumptions,
 	}
@@ -311,6 +312,7 @@ func runC19(c *an.Ctx) {
 	ruleG8(c, sp)
 	ruleG9(c, sp)
 	ruleG10(c, sp)
+	ruleG11(c)
 
 	// ---------------- G2 ----------------
 	walkers := []struct {
